@@ -2,7 +2,8 @@
   DD.NewMgrCore — the constructor `BDD(levels)` as a function that does not depend on the line
   protocol: `DD.newMgr` (DD.Driver) is this function with the driver's result type
   (`newMgr_eq_core`, DDProofs.Reach4New).  It exists so that theorems about the constructor can be
-  stated next to the history theorems (DD.Driver and DDProofs.Reach both define a `DD.Res`).
+  stated without importing the line protocol (the driver's result type is `DD.DRes`, the result
+  type of the history vocabulary of DDProofs.Reach is `DD.Res`).
 -/
 import DD.Ops
 open Std
